@@ -9,8 +9,10 @@ C = {
  "C07": ("TLC explores every pair of projective representations of every element of the W37 world through the code's own formulas: Equal <=> equal bytes <=> same class, all-zero guard; at real size the Equal matrix, Bytes and decode round trips of the whole pool are judged after every call of TLC-generated API histories", "4 C07"),
  "C08": ("TLC checks on every transition of the W37 representation space that the code's projective formulas compute the affine group law, and the group laws for all points and scalars; at real size every call of TLC-generated API histories (all aliasings, scalar edge classes) is judged against the specification's group element", "4 C08"),
  "C11": ("TLC checks for all representations of the W37 world that x/y on raw coordinates is class-invariant and injective and that the batch variant agrees; at real size MapToScalarField of every pool element is judged after every call against x/y mod r computed by the specification", "4 C11"),
+ "C14": ("TLC explores all operation sequences to depth 5 over a small alphabet (incl. empty strings) and checks that the specification machine, the machine as the code has it and the declarative history agree (a buffer-capacity mutant is refuted); at real size every challenge of TLC-generated operation sequences (long pending buffers, all point representations, consecutive challenges) is judged against the specified hash chain, and twin sequences differing by one edit must give different challenges exactly when their absorbed streams differ", "4 C14"),
  "C15": ("TLC checks the word-level Montgomery/CIOS, add/sub/neg/double, batch-inversion and binary-inversion algorithms against integer arithmetic mod m for every operand pair of a scaled machine; the same Field module at the real modulus validates every recorded call of the real code (three code paths, all aliasings) on the limb-class product", "4 C15"),
  "C16": ("TLC checks the decoders' specification (reduce / canonical accept iff value < r / buffer frame) on every short byte string of a one-byte world, and validates every recorded encode/decode of the real code, including the caller's buffer before/after and a second decode of the same buffer", "4 C16"),
+ "C17": ("TLC checks the table-driven square-root algorithm, Tonelli-Shanks and point recovery against their definitions for EVERY element of F_193 and F_257 (same block structure as the code); at real size every recorded SqrtPrecomp/GetPointFromX call on block-value sweeps of the dyadic discrete log, special and random inputs is judged by Euler's criterion and squaring, and the exported tables are compared with their definitions (lookup keys pairwise distinct)", "4 C17"),
  "C19": ("TLC checks every aliasing pattern of pointer lists (length 0..4) over a heap of representation-palette cells: batch = single position-wise, normalisation value-preserving and all-or-nothing, de-duplication load-bearing; at real size every batch call inside TLC-generated histories is judged position-wise against the specification", "4 C19"),
  "C20": ("TLC checks the code's range formula against the split relation on the complete (n, m) grid and all interleavings of a PlusCal model of Execute (join before return); the real Execute is run on the same complete grid and every call's observed ranges and completion count are judged by the relation", "4 C20"),
 }
